@@ -32,9 +32,11 @@ func runC14(c *Ctx) {
 	c.Rule("C14-R2", "stop path: on the true edge of FindStop the pending pieces are replaced by TruncateStop's result (same stop string) before removeSequence flushes them")
 	c.Rule("C14-R3", "final flush drops invalid tails: flushPending sends on seq.responses only the value left by the !utf8.ValidString trimming loop, on the non-empty edge, and clears the pending pieces first")
 	c.Rule("C14-R4", "reason table: each removeSequence call's reason constant matches its guard (prediction limit → Length; EOS/EOG, stop string, embedding → Stop; failed flush → ConnectionClosed); a call without a table row is undecided")
-	c.Rule("C14-R6", "sibling agreement: the two runners' post-sampling blocks call the same helpers in the same order")
+	c.Rule("C14-R6", "sibling agreement: the two runners' post-sampling blocks call the same helpers, and no two of them in opposite execution order (dominance on the CFG)")
 	c.Rule("C14-R8", "the prediction limit is tested for every live sequence before any of its inputs is added to a batch: the Length removal sits in the batch-assembly loop and its guard dominates every addition to the batch (a limit test placed after the withhold `continue`s lets generation run past the limit)")
 	var helperOrder [2][]string
+	var helperLoc [2]map[string]core.Loc
+	var helperG [2]*core.Graph
 	for ri, rel := range []string{ollamaRunnerPkg, llamaRunnerPkg} {
 		f := c.Fn("C14-R1", rel, "Server.processBatch")
 		if f == nil {
@@ -123,9 +125,23 @@ func runC14(c *Ctx) {
 			hits := g.FindCalls(commonPkg + ".TruncateStop")
 			for i := range hits {
 				h := &hits[i]
-				if as, ok := h.Top.(*ast.AssignStmt); ok && selName(as.Lhs[0]) == "pendingResponses" {
+				if as, ok := h.Top.(*ast.AssignStmt); ok {
 					tc := h.Node.(*ast.CallExpr)
-					if selName(tc.Args[0]) == "pendingResponses" && stopVar != nil && core.UsesObj(info, tc.Args[1], stopVar) {
+					direct := selName(as.Lhs[0]) == "pendingResponses"
+					if !direct {
+						// kept, _ := TruncateStop(…); seq.pendingResponses = kept
+						if rv := core.ResultVar(info, h.Top, tc, 0); rv != nil {
+							for _, st := range g.Find(func(nd ast.Node) bool {
+								a2, isA := nd.(*ast.AssignStmt)
+								return isA && len(a2.Lhs) == 1 && len(a2.Rhs) == 1 && selName(a2.Lhs[0]) == "pendingResponses" && isIdentOf(info, a2.Rhs[0], rv)
+							}) {
+								if g.Dominates(h.Loc, st.Loc) {
+									direct = true
+								}
+							}
+						}
+					}
+					if direct && selName(tc.Args[0]) == "pendingResponses" && stopVar != nil && core.UsesObj(info, tc.Args[1], stopVar) {
 						trunc = h
 					}
 				}
@@ -189,11 +205,17 @@ func runC14(c *Ctx) {
 		}
 		c.Expect("C14-R4", "removeSequence calls in "+rel+" processBatch", rows, 5)
 		// R6: helper order in the post-sampling block (source order after the join)
+		helperLoc[ri] = map[string]core.Loc{}
+		helperG[ri] = g
 		for _, call := range core.Calls(f.Body, false) {
 			n := core.CalleeName(info, call)
 			if strings.HasPrefix(n, commonPkg+".") || n == rel+".flushPending" {
 				if call.Pos() > seqVar.Pos() {
-					helperOrder[ri] = append(helperOrder[ri], strings.TrimPrefix(strings.TrimPrefix(n, commonPkg+"."), rel+"."))
+					nm := strings.TrimPrefix(strings.TrimPrefix(n, commonPkg+"."), rel+".")
+					helperOrder[ri] = append(helperOrder[ri], nm)
+					if _, seen := helperLoc[ri][nm]; !seen {
+						helperLoc[ri][nm] = g.Locate(call)
+					}
 				}
 			}
 		}
@@ -293,8 +315,32 @@ func runC14(c *Ctx) {
 			c.Check("C14-R8", f.Key()+" numPredicted++ once per sampled token", c.Pos(f.Decl), okInc, "the predicted-token counter must be advanced exactly once on every sampling path")
 		}
 	}
-	c.Check("C14-R6", "post-sampling helper order agrees across runners", "-", len(helperOrder[0]) >= 5 && strings.Join(helperOrder[0], ",") == strings.Join(helperOrder[1], ","),
-		"ollamarunner: "+strings.Join(helperOrder[0], ",")+"; llamarunner: "+strings.Join(helperOrder[1], ","))
+	// the same helpers in both runners, and no pair of them in opposite execution order: if a call of A strictly
+	// dominates the call of B in one runner, B's does not strictly dominate A's in the other (judged on the CFG, so
+	// the order of the branches in the source does not matter)
+	agree := len(helperLoc[0]) >= 5 && len(helperLoc[0]) == len(helperLoc[1])
+	clash := ""
+	for a, la := range helperLoc[0] {
+		lb0, has := helperLoc[1][a]
+		if !has {
+			agree = false
+			clash = a + " is called in one runner only"
+			continue
+		}
+		_ = lb0
+		for b, lb := range helperLoc[0] {
+			if a == b {
+				continue
+			}
+			la1, lb1 := helperLoc[1][a], helperLoc[1][b]
+			if helperG[0] != nil && helperG[1] != nil && la != lb && la1 != lb1 && helperG[0].Dominates(la, lb) && helperG[1].Dominates(lb1, la1) {
+				agree = false
+				clash = a + " runs before " + b + " in ollamarunner and after it in llamarunner"
+			}
+		}
+	}
+	c.Check("C14-R6", "post-sampling helper order agrees across runners", "-", agree,
+		clash+" (ollamarunner: "+strings.Join(helperOrder[0], ",")+"; llamarunner: "+strings.Join(helperOrder[1], ",")+")")
 
 	// R3 flushPending in both runners; removeSequence flushes before closing
 	for _, rel := range []string{ollamaRunnerPkg, llamaRunnerPkg} {
